@@ -21,7 +21,7 @@ SPEC = dict(
                 "driver-call log (ranges + values) and the queue contents are diffed; the property is also evaluated on the real "
                 "outputs by an independent oracle (prefix/subset/permutation/version/is_ready/progress checks written against the property, with its own record of released snapshots)."),
     level_note=("Trusted: Lean kernel + propext/Classical.choice/Quot.sound; FxHashMap iteration order is an input of the model "
-                "(observed from the real map and written into the op line); Hook.WF (distinct hash-map keys; a KeyedSingletonHook key with an empty queue has been released before) is a hypothesis of the no-panic theorem; it holds for freshly created hooks fed by entry(k).or_default().push_back(v) (by inspection of builder.rs, not modelled) and is preserved by every decision + release (hook_wf_preserved, runHooks_preserves_wf); run_hooks is shown to act hook by hook (runHooks_is_hookwise), which carries the per-hook theorems to each component of its result (runHooks_nothing_lost_nothing_twice); the choice-tape convention 'every generate() consumes one entry' is that of the harness's scripted driver - bolero's exhaustive driver draws nothing for one-value ranges and its byte driver consumes by type width, which changes tapes but not the sets of decisions; unsync mpsc channel, VecDeque, bolero's Borrowed/"
+                "(observed from the real map and written into the op line); Hook.WF (distinct hash-map keys; a KeyedSingletonHook key with an empty queue has been released before) is a hypothesis of the no-panic theorem; it holds for freshly created hooks fed by entry(k).or_default().push_back(v) (by inspection of builder.rs, not modelled) and is preserved by every decision + release (hook_wf_preserved, runHooks_preserves_wf); run_hooks is shown to act hook by hook (runHooks_is_hookwise), which carries the per-hook theorems to each component of its result: runHooks_tick_decisions_sound states the prefix / sub-multiset / per-key / snapshot clause (HookSound, by hook kind) for every hook of a tick on run_hooks' own output, runHooks_nothing_lost_nothing_twice the permutation clause; the choice-tape convention 'every generate() consumes one entry' is that of the harness's scripted driver - bolero's exhaustive driver draws nothing for one-value ranges and its byte driver consumes by type width, which changes tapes but not the sets of decisions; unsync mpsc channel, VecDeque, bolero's Borrowed/"
                 "scope plumbing are exercised, not modelled; the keyed inline hooks have no theorem (correspondence + oracle only); the scheduler loop around "
                 "run_hooks (LaunchedSim::step) are not modelled; harness/differ are our code."),
     trusted_base=["FxHashMap iteration order taken as an explicit input (association list in observed order)",
